@@ -1,8 +1,8 @@
 #!/bin/bash
-# usage: tools/ingest_mutant.sh Cxx k "<needs to manifest>"
+# usage: tools/ingest_mutant.sh Cxx k "<needs to manifest>" [index to store it under, default k]
 # Verifies a sub-agent's mutant in its scratch worktree /tmp/mut/Cxx (suite passes with the change,
 # demo fails with it and passes without it) and stores it as seeded/Cxx-mk/.
-P=$1; K=$2; NEEDS=$3; W=/tmp/mut/$P; ID=$P-m$K
+P=$1; K=$2; NEEDS=$3; OUT=${4:-$K}; W=/tmp/mut/$P; ID=$P-m$OUT
 export CARGO_TARGET_DIR=$W/target CARGO_NET_OFFLINE=true
 cd $W || exit 2
 git checkout -q -- src; rm -rf tests/demo_m.rs
